@@ -21,14 +21,25 @@ def scenarios(ctx):
             if rng.random() < 0.5:
                 st["mode"] = rng.choice(MODES)
                 st["resp"]["size"] = rng.choice([10, 5000, 100000])
+                if st["mode"] == "abort_body":
+                    st["resp"]["chunked"] = rng.random() < 0.5
+                    st["rst"] = rng.random() < 0.5
             steps.append(st)
         out.append({"id": "flt-%d" % i, "cfg": {}, "steps": steps})
     # every failure mode at least once with plain requests
     steps = []
     for m in MODES + ["ok"]:
         for tls in (False, True):
-            steps.append({"target": "/m", "method": "GET", "e2e": ["X-App"], "hop": [], "conn": [], "upstream": [], "tls": tls,
-                          "hostport": False, "passhost": False, "peer": "v4", "mode": m, "resp": F.random_response(rng)})
+            for chunked in ((False, True) if m == "abort_body" else (None,)):
+                resp = F.random_response(rng)
+                st = {"target": "/m", "method": "GET", "e2e": ["X-App"], "hop": [], "conn": [], "upstream": [], "tls": tls,
+                      "hostport": False, "passhost": False, "peer": "v4", "mode": m, "resp": resp}
+                if chunked is not None:
+                    resp["chunked"], resp["size"] = chunked, 2000
+                    for rst in (False, True):
+                        steps.append(dict(st, rst=rst))
+                else:
+                    steps.append(st)
     out.append({"id": "modes", "cfg": {}, "steps": steps})
     return out
 
